@@ -132,13 +132,14 @@ func runC16(c *Ctx) {
 	res := runHists(c, allCfgs(), hists)
 	finishHist(c, "C16", res, "matrix 3 signature modes x {signer resolvable, signer unknown, signature wrong} x {first CDP fetch, periodic refresh, refresh after restart, restart after a rejected first load} x {memory, disk} x fetch mode x strict (288 histories)")
 	c16Provision(c)
+	c16RestartStage(c)
 	c.Rep.Extra["exhaustive"] = true
 }
 
 // c16Provision: the provision-time path (crl_urls), not part of the history model: direct oracle only.
 func c16Provision(c *Ctx) {
 	for _, storage := range []string{"memory", "disk"} {
-		for _, sig := range []string{"verify", "verify_log", "none"} {
+		for _, sig := range []string{"verify", "verify_log", "none", ""} { // "" = option omitted: means verify
 			for _, fetch := range []string{"fetch_actively", "fetch_background"} {
 				for _, x := range []string{"old", "unknown", "badsig"} {
 					for _, trusted := range []bool{false, true} {
@@ -154,7 +155,7 @@ func c16Provision(c *Ctx) {
 						}
 						err := w.Provision()
 						// acceptable under the mode?
-						acceptable := sig != "verify" || (x == "old" && trusted)
+						acceptable := (sig != "verify" && sig != "") || (x == "old" && trusted)
 						rep := map[string]interface{}{"storage": storage, "sig": sig, "fetch": fetch, "list": x, "trusted_signer_configured": trusted}
 						c.Count("provision-path")
 						if acceptable {
@@ -167,6 +168,27 @@ func c16Provision(c *Ctx) {
 							if v := w.Do(hs("p")); v == "revoked" {
 								c.Fail("", "configured CRL in force under verify although it cannot be verified", rep)
 							}
+						}
+						// the CDP path under the same configuration: a strict handshake tells whether the list came into force
+						if !trusted && fetch == "fetch_actively" && x != "old" {
+							w2 := NewWorld(c, fmt.Sprintf("p16c_%s_%s_%s", storage, sig, x))
+							for n, s := range histLists {
+								w2.AddList(n, s)
+							}
+							w2.AddCert("q", CertSpec{Serial: 103, CDP: []string{"/a"}})
+							w2.Do(sv("/a", x))
+							w2.Cfg = VCfg{Mode: "crl_only", Storage: storage, SigMode: sig, FetchMode: fetch, CDPStrict: true, Interval: "1h"}
+							if err := w2.Provision(); err != nil {
+								c.Fail("", "provisioning without configured CRLs failed: "+err.Error(), rep)
+							} else {
+								v := w2.Do(hs("q"))
+								inForce := v == "accept"
+								if inForce != (sig == "verify_log" || sig == "none") {
+									c.Fail("", fmt.Sprintf("CDP list (%s) under signature_validation_mode %q: in force=%v (strict handshake of an unlisted certificate: %s)", x, sig, inForce, v), rep)
+								}
+							}
+							c.Rep.Cases++
+							w2.Close()
 						}
 						c.Nontrivial(fmt.Sprint(rep))
 						c.Rep.Cases++
